@@ -226,13 +226,12 @@ func (r Iterator[T]) DropWhile(p func(T) bool) Iterator[T] {
 
 func (r Iterator[T]) Filter(p func(T) bool) Iterator[T] {
 
-	first := true
 	var fv Option[T] = None[T]()
 
+	// the next match is searched only when asked for, not prefetched by Next
 	hasNext := func() bool {
-		if first {
+		if fv.IsEmpty() {
 			fv = r.Find(p)
-			first = false
 		}
 		return fv.IsDefined()
 	}
@@ -243,7 +242,7 @@ func (r Iterator[T]) Filter(p func(T) bool) Iterator[T] {
 			if hasNext() {
 
 				ret := fv.Get()
-				fv = r.Find(p)
+				fv = None[T]()
 				return ret
 			}
 			return r.nextOnEmpty()
